@@ -7,7 +7,7 @@ from typing import Dict, List, Optional, Tuple
 from sa.canon import canon
 from sa.peval import peval
 from sa.report import Ctx
-from sa.sym import callkw, FALSE, NONE, NOT, Summary, bind_args, conjuncts, show, walk
+from sa.sym import callkw, FALSE, NONE, NOT, Summary, bind_args, conjuncts, show, subst, walk
 
 MATCH = "soundevent.evaluation.match"
 AFF = "soundevent.evaluation.affinity"
@@ -86,8 +86,22 @@ class C07:
         if mat[0] == "call" and mat[1][0] == "ext" and mat[1][1] in ("numpy.zeros", "numpy.empty", "numpy.full"):
             kw = callkw(mat)
             shape = kw.get("shape", mat[2][0] if mat[2] else None)
-        if shape == ("tuple", (LEN(src), LEN(tgt))) and mat[1][1] == "numpy.zeros":
-            ctx.ok("R07.1", site, "matrix = zeros((len(source), len(target)))")
+        dtype = None
+        if shape is not None:
+            dtype = kw.get("dtype", mat[2][1] if len(mat[2]) > 1 and mat[1][1] != "numpy.full" else None)
+        FLOAT64 = (("builtin", "float"), ("ext", "numpy.float64"), ("ext", "numpy.double"), ("ext", "numpy.float_"), ("const", "float64"),
+                   ("const", "float"), ("const", "d"), ("const", "f8"), NONE)
+        casts = [e for e in s.calls if e.term[1][0] == "attr" and e.term[1][2] in ("astype", "view", "round") and e.term[1][1] == mat]
+        if dtype is not None and dtype not in FLOAT64:
+            ctx.bad("R07.1", self.file, "match_geometries", f"cost_matrix = {show(mat)[:70]}",
+                    f"the affinity matrix is allocated with dtype {show(dtype)}: affinities are doubles, storing them in another type "
+                    f"changes the reported affinity (it no longer equals compute_affinity of the pair) and can change the optimal pairing",
+                    st.lineno, witness={"affinity": 1 / 3, "stored as float32": 0.3333333432674408})
+        elif casts:
+            ctx.bad("R07.1", self.file, "match_geometries", f"{show(casts[0].term)[:70]}",
+                    "the affinity matrix is converted / rounded before it is used: reported affinities differ from compute_affinity", casts[0].lineno)
+        elif shape == ("tuple", (LEN(src), LEN(tgt))) and mat[1][1] == "numpy.zeros":
+            ctx.ok("R07.1", site, "matrix = zeros((len(source), len(target))) of doubles")
         elif not strict:
             pass
         else:
@@ -252,6 +266,10 @@ class C07:
             ctx.bad("R07.3", self.file, "_select_matches", f"yield {show(y.term)[:60]}",
                     "the two-sided yield is not (row, column) of the solver's assignment in that order", y.lineno)
             return
+        # the other spelling: no leftover sets, the one-sided entries are range(n) filtered by "not among the paired ones"
+        if self.complement_form(s, M, y, L, r, c, left_r, left_c, site):
+            self.check_dominance(s, M, y, r, c)
+            return
         # both removals in the same iteration under the same condition
         rem = {"row": None, "col": None}
         for e in s.calls:
@@ -287,6 +305,69 @@ class C07:
                         f"leftover {name}s are not all yielded as one-sided entries ({'(r, None)' if pos == 0 else '(None, c)'}) "
                         f"from the leftover set: some {'source' if pos == 0 else 'target'} index is never mentioned or is "
                         f"mentioned on the wrong side", s.node.lineno)
+        self.check_dominance(s, M, y, r, c)
+
+    @staticmethod
+    def _flatten(S):
+        """a (nested) comprehension as (element, loop id, iterable, conditions) of one loop; None when it has another shape"""
+        if S[0] == "call" and S[1] in (("builtin", "set"), ("builtin", "frozenset"), ("builtin", "list"), ("builtin", "tuple")) and len(S[2]) == 1 and not S[3]:
+            S = S[2][0]
+        if S[0] != "comp" or len(S[3]) != 1:
+            return None
+        elt, (lid, it, conds) = S[2], S[3][0]
+        if it[0] == "comp" or (it[0] == "call" and it[1][0] == "builtin" and it[1][1] in ("list", "tuple", "set") and it[2] and it[2][0][0] == "comp"):
+            inner = C07._flatten(it)
+            if inner is None:
+                return None
+            elt2, lid2, it2, conds2 = inner
+            mp = {("elem", lid): elt2}
+            from sa.sym import fold_sub
+            return fold_sub(subst(elt, mp)), lid2, it2, tuple(conds2) + tuple(fold_sub(subst(c_, mp)) for c_ in conds)
+        return elt, lid, it, tuple(conds)
+
+    def complement_form(self, s, M, y, L, r, c, left_r, left_c, site) -> bool:
+        ctx = self.ctx
+        pair_conds = {canon(x) for x in conjuncts(y.live) if x[0] != "inloop"}
+        found = {}
+        for name, ylist, pos, comp in (("row", left_r, 0, r), ("column", left_c, 1, c)):
+            for yy in ylist:
+                LL = s.loops.get(yy.loops[-1]) if yy.loops else None
+                it = LL.iter if LL else None
+                if it is not None and it[0] == "call" and it[1] == ("builtin", "sorted") and len(it[2]) == 1:
+                    it = it[2][0]
+                want_it = ("call", ("builtin", "range"), (("sub", ("attr", M, "shape"), ("const", pos)),), ())
+                if LL is None or it != want_it or yy.term[1][pos] != ("elem", LL.id) or yy.idx < y.idx:
+                    continue
+                conds = [x for x in conjuncts(yy.live) if x[0] != "inloop"]
+                if len(conds) != 1:
+                    continue
+                cd = conds[0]
+                if cd[0] == "not" and cd[1][0] == "cmp" and cd[1][1] == "in":
+                    cd = ("cmp", "notin", cd[1][2], cd[1][3])
+                if not (cd[0] == "cmp" and cd[1] == "notin" and cd[2] == ("elem", LL.id)):
+                    continue
+                flat = self._flatten(cd[3])
+                if flat is None:
+                    continue
+                elt, lid, it2, conds2 = flat
+                mp = {("elem", lid): ("elem", L.id), ("inloop", lid): ("inloop", L.id)}
+                elt = subst(elt, mp)
+                conds2 = {canon(subst(x, mp)) for x in conds2}
+                found[name] = (yy, it2 == L.iter and elt == comp and conds2 == pair_conds)
+        if set(found) != {"row", "column"}:
+            return False
+        for name, (yy, good) in found.items():
+            if good:
+                ctx.ok("R07.3", f"{self.file}:{yy.lineno} _select_matches", f"a {name} is yielded one-sided iff it is not the {name} of a yielded pair")
+                ctx.ok("R07.3", site, f"every {name} index of range(n) that is not paired is yielded one-sided after the pairs")
+            else:
+                ctx.bad("R07.3", self.file, "_select_matches", f"leftover {name}s",
+                        f"the one-sided {name} entries are filtered by a set that is not exactly the {name}s of the yielded pairs: "
+                        f"an index is reported twice or not at all", yy.lineno)
+        return True
+
+    def check_dominance(self, s, M, y, r, c):
+        ctx = self.ctx
         # R07.4 dominance: the two-sided yield requires a positive cell
         cell = ("sub", M, ("tuple", (r, c)))
         pos_forms = [("cmp", "lt", ("const", 0), cell), ("cmp", "lt", ("const", 0.0), cell)]
